@@ -21,16 +21,16 @@ RULES = [
     (r"nelems\(\)%(n|size)\)?==0", "partitionDivides"),
     (r"^this->size\(\)%(count|size|2)==0$", "partitionDivides"),
     (r"^(offset_|nelems_)%stride_==0$", "extensionDivisible"),
-    (r"^\(stride_\*num\)%den==0$|^offset_==0$|^\(offset_\*num\)%den==0$", "scalePrecondition"),
-    (r"^(this->)?stride\(\)!=0$|^other\.stride\(\)!=0$|^stride_!=0$|^self\.stride_!=0$|^ilv\.size\(\)\|\|\(this->stride\(\)!=0\)$", "strideNonzero"),
-    (r"extensions?\(\)==.*extensions?\(\)|extensions\(other\)==|extension\(\)==other\.extension\(\)|equal_extensions_if_", "equalExtents"),
-    (r"size\(\)==other\.size\(\)|num_elements\(\)==other\.num_elements\(\)|values\.size\(\)\)?==|adl_size\(rng\)|std::distance\(first,last\)==this->size\(\)|new_layout\.num_elements\(\)==this->num_elements\(\)", "equalCount"),
+    (r"^\(?(stride_\*num|num\*stride_)\)?%den==0$|^offset_==0$|^\(?(offset_\*num|num\*offset_)\)?%den==0$", "scalePrecondition"),
+    (r"^(this->)?stride\(\)!=0$|^other\.stride\(\)!=0$|^stride_!=0$|^self\.stride_!=0$|^ilv\.size\(\)\|\|\(?this->stride\(\)!=0\)?$", "strideNonzero"),
+    (r"extensions?\(\)==.*extensions?\(|extensions\(other\)==|extension\(\)==other\.extension\(\)|equal_extensions_if_", "equalExtents"),
+    (r"size\(\)==other\.size\(\)|num_elements\(\)==other\.num_elements\(\)|values\.size\(\)\)?==|==(static_cast<[^>]*>\()?values\.size\(\)|adl_size\(rng\)|std::distance\(first,last\)==this->size\(\)|new_layout\.num_elements\(\)==this->num_elements\(\)", "equalCount"),
     (r"stride_==other\.stride_|stride\(\)==other\.stride\(\)|layout\(\)==.*layout\(\)|layout_==other\.layout_|layout_\.nelems\(\)==other\.layout_\.nelems\(\)|base_==other\.base_&&l_==other\.l_|\(ptr_-other\.ptr_\)%stride\(\)==0", "iterCompatible"),
     (r"^sub_num_elements!=0$|^n==0$", "fromLinearGuard"),
     (r"^idx<this->num_elements\(\)$|^!is_empty\(\)$", "elementsIndexBound"),
     (r"^this->num_elements\(\)==1$|^other\.num_elements\(\)<=1$", "zeroDimCount"),
-    (r"sizeof\(T\)==sizeof\(T2\)|sizeof\(T\)\)%static_cast<size_type>\(sizeof\(T2\)\)==0", "reinterpretSizes"),
-    (r"^self\.self\(\)>tmp$", "postIncrementOrder"),
+    (r"sizeof\(T\)==sizeof\(T2\)|sizeof\(T\)\)?(\*this->layout\(\)\.stride\(\))?%static_cast<size_type>\(sizeof\(T2\)\)==0", "reinterpretSizes"),
+    (r"^self\.self\(\)>\w+$|^\w+<self\.self\(\)$", "postIncrementOrder"),
     (r"this->base_\|\|", "nullBaseOffset"),
     (r"^this->size\(\)==0$", "defaultEmpty"),
     (r"^0$", "unreachable"),
@@ -96,8 +96,90 @@ def extract(path):
             j += 1
         expr = re.sub(r"\s+", "", src[m.end():j - 1])
         expr = re.sub(r"&&\(\"\"\)$", "", expr)  # trailing && ("message")
-        sites.append({"line": line + 1, "fn": enclosing(lines, line), "expr": expr, "macro": m.group(1)})
+        sites.append({"line": line + 1, "fn": enclosing(lines, line), "expr": canon_expr(expr), "raw": expr, "macro": m.group(1)})
     return sites
+
+
+# ---- canonical text of an assertion expression: parsed with the translators' expression parser and printed back without
+#      redundant parentheses, with `>`/`>=` turned into `<`/`<=`, the operands of `==` `!=` `+` `*` in one canonical order
+#      (numerals last, terms of `other` after the receiver's) and without `&& "message"` conjuncts — so that a reworded message,
+#      `0 == x`, `size() >= n` or an added pair of parentheses is the SAME inventory entry.  `&&`/`||` keep their order (it can
+#      carry a guard).  An expression the parser cannot read keeps its raw text.
+sys.path.insert(0, os.path.dirname(os.path.abspath(__file__)))
+try:
+    import gen_layout as _GL
+except Exception:  # noqa
+    _GL = None
+
+_PREC = {"?:": 1, "||": 2, "&&": 3, "==": 4, "!=": 4, "<": 5, "<=": 5, ">": 5, ">=": 5, "+": 6, "-": 6, "*": 7, "/": 7, "%": 7}
+
+
+def _show(e, parent=0):
+    k = e[0]
+    if k == "paren":
+        return _show(e[1], parent)
+    if k == "num":
+        return str(e[1])
+    if k == "str":
+        return '""'
+    if k == "id":
+        return e[1] + (f"<{e[2]}>" if e[2] else "")
+    if k == "braces":
+        return "{" + ",".join(_show(x) for x in e[1]) + "}"
+    if k == "construct":
+        return e[1] + "{" + ",".join(_show(x) for x in e[3]) + "}"
+    if k == "call":
+        return _show(e[1], 9) + "(" + ",".join(_show(x) for x in e[2]) + ")"
+    if k == "mem":
+        return _show(e[1], 9) + "." + e[2] if not (e[1][0] == "id" and e[1][1] == "this") else "this->" + e[2]
+    if k == "index":
+        return _show(e[1], 9) + "[" + _show(e[2]) + "]"
+    if k == "pack":
+        return _show(e[1], 9) + "..."
+    if k.startswith("un"):
+        return k[2:] + _show(e[1], 8)
+    if k.startswith("pre"):
+        return k[3:] + _show(e[1], 8)
+    if k == "?:":
+        t = _show(e[1], 2) + "?" + _show(e[2], 2) + ":" + _show(e[3], 1)
+        return "(" + t + ")" if parent > 1 else t
+    if k in _PREC:
+        a, b, op = e[1], e[2], k
+        if op == "&&":
+            # drop "message" conjuncts
+            if _strip(b)[0] == "str":
+                return _show(a, parent)
+            if _strip(a)[0] == "str":
+                return _show(b, parent)
+        if op in (">", ">="):
+            a, b, op = b, a, {">": "<", ">=": "<="}[op]
+        x, y = _show(a, _PREC[op]), _show(b, _PREC[op] + (0 if op in ("+", "*", "&&", "||") else 1))
+        if op in ("==", "!=", "+", "*"):
+            x2, y2 = _GL.canon2(x, y)
+            if (x2, y2) != (x, y):
+                x, y = _show(b, _PREC[op]), _show(a, _PREC[op] + (0 if op in ("+", "*") else 1))
+        t = x + op + y
+        return "(" + t + ")" if _PREC[op] < parent else t
+    raise ValueError(k)
+
+
+def _strip(e):
+    while e[0] == "paren":
+        e = e[1]
+    return e
+
+
+def canon_expr(expr):
+    if _GL is None or "{" in expr or "<(" in expr:
+        return expr
+    try:
+        p = _GL.P(_GL.lex(expr))
+        e = p.expr()
+        if p.peek()[0] != "eof":
+            return expr
+        return _show(e)
+    except Exception:  # noqa
+        return expr
 
 
 def classify(expr):
@@ -107,14 +189,34 @@ def classify(expr):
     return "UNMAPPED"
 
 
+def translated_extents():
+    """{file: [(first line, last line)]} of the definitions regenerated by the translators (lean/MultiModel/Gen/*.functions.json):
+    the assertions inside them are part of the generated `<name>_asserts` definitions, tied to the model by proof — for
+    those sites the inventory keeps the class but not the text (a renamed local in such an assertion is not an edit)"""
+    out = {}
+    d = os.path.join(HERE, "lean", "MultiModel", "Gen")
+    for f in sorted(os.listdir(d)) if os.path.isdir(d) else []:
+        if f.endswith(".functions.json"):
+            try:
+                for fn in json.load(open(os.path.join(d, f))).get("functions", []):
+                    for a, b in fn.get("extents", []):
+                        out.setdefault("include/boost/multi/" + fn["file"], []).append((a, b))
+            except Exception:  # noqa
+                pass
+    return out
+
+
 def main():
     inv = []
+    tied = translated_extents()
     for f in FILES:
         p = os.path.join(REPO, f)
         for s in extract(p):
             s["file"] = f
             s["cls"] = classify(s["expr"])
             s["pure"] = not IMPURE.search(s["expr"])
+            if any(a <= s["line"] <= b for a, b in tied.get(f, [])) and s["cls"] != "UNMAPPED":
+                s["expr"] = "<tied by a translator: " + s["cls"] + ">"
             inv.append(s)
     snap_path = os.path.join(HERE, "tools", "assert_inventory.json")
     key = lambda s: (s["file"], s["fn"], s["expr"], s["cls"])
